@@ -8,7 +8,7 @@
 
 use simcore::driver::{case_text, Replay};
 use simcore::emit::{builder_module, layout_module, main_rs, shard_cargo_toml, workspace_cargo_toml, ShardMember};
-use simcore::layout::{gen_bad_enum_probes, gen_default_probes, gen_layout, gen_mismatch_probes, gen_narrow_probes, gen_probes, gen_syntax_probes, is_native, storage_bits, GenOpts, Layout};
+use simcore::layout::{gen_bad_enum_probes, gen_default_probes, gen_layout, gen_mismatch_probes, gen_narrow_probes, gen_probes, gen_syntax_probes, gen_syntax_probes_at, is_native, storage_bits, GenOpts, Layout};
 use simcore::prng::{mix, Rng, TAG_LAYOUT, TAG_PROBE};
 use simcore::shrink::{reduce_layout, referenced_fields};
 use std::fs;
@@ -76,6 +76,9 @@ fn probes_for(prop: &str, seed: u64, which: &str) -> Vec<Layout> {
             // class D: default with bits >= N
             let mut rng = Rng::new(mix(&[seed, TAG_DEFAULT, n as u64]));
             out.extend(gen_default_probes(&mut rng, n, DEFAULT_ID_BASE + n * 100));
+            // class G: rule-following declarations in a syntax the macro rejects today, the
+            // exotically spelled field at the top of the base (the twin-run oracle needs no model)
+            out.extend(gen_syntax_probes_at(n, SYNTAX_ID_BASE + n * 100, true));
         }
     } else {
         let widths: Vec<u32> = if which == "quick" {
